@@ -50,6 +50,6 @@ for pid in ALL:
             "technique": technique,
         })
     else:
-        manifest["not_applicable"].append({"property_id": pid, "reason": "check not built yet (work in progress in this session); not claimed"})
+        manifest["not_applicable"].append({"property_id": pid, "reason": "check under construction in this session (model, theorems and stream not yet complete); not claimed yet"})
 json.dump(manifest, open("/verif/MANIFEST.json", "w"), indent=1)
 print("claimed:", sorted(CLAIMED))
